@@ -1090,11 +1090,11 @@ def run(ctx):
     ctx.rule = ("scripts = (source, target, version) + client operations (connect / write / read / idle), each with the "
                 "gateway frames arriving while it is in progress; distinct = distinct (script, segmentation); non-trivial "
                 "= at least one gateway frame arrives")
-    pool = None
-    if not ctx.quick or ctx.widened:
-        import multiprocessing as mp
+    import multiprocessing as mp
 
-        pool = mp.get_context("fork").Pool(min(16, mp.cpu_count() or 1))
+    # quick tier: a small pool (the whole-execution scripts are spread over it); thorough / search: all cores
+    pool = mp.get_context("fork").Pool(min(16, mp.cpu_count() or 1) if (not ctx.quick or ctx.widened)
+                                       else max(1, min(4, (mp.cpu_count() or 2) // 2)))
     seen_aspects = {}
     total = 0
 
